@@ -43,3 +43,26 @@ mkharness() {
   rsync -a "$VERIF_ROOT/go"/ "$d/h"/ || die2 "copy of harness failed"
   cp "$d/repo/go.sum" "$d/h/go.sum" 2>/dev/null || true
 }
+
+# mkoverlay: a copy of the standard library's sync/pool.go whose Put discards
+# (behaviour Pool's contract allows). Under -race the stock Put drops items at
+# random and its Put/Get are release/acquire-annotated, which both randomises
+# and hides data races between simulated clients that merely share fmt's
+# internal buffer pool. Only world C06 is built with this overlay.
+mkoverlay() {
+  local gr; gr="$($GO env GOROOT)"
+  local src="$gr/src/sync/pool.go"
+  [ -f "$src" ] || die2 "cannot find $src"
+  mkdir -p "$BUILD_DIR/overlay"
+  if [ ! -f "$BUILD_DIR/overlay/pool.go" ] || [ "$src" -nt "$BUILD_DIR/overlay/pool.go" ]; then
+    python3 - "$src" "$BUILD_DIR/overlay/pool.go" <<'PY' || die2 "cannot patch sync/pool.go"
+import sys,re
+s=open(sys.argv[1]).read()
+old="func (p *Pool) Put(x any) {\n\tif x == nil {\n\t\treturn\n\t}\n"
+assert old in s, "unexpected sync/pool.go"
+s=s.replace(old, old+"\tif race.Enabled {\n\t\treturn // verif overlay: never retain under the simulator\n\t}\n",1)
+open(sys.argv[2],'w').write(s)
+PY
+  fi
+  printf '{"Replace":{"%s":"%s"}}\n' "$src" "$BUILD_DIR/overlay/pool.go" > "$BUILD_DIR/overlay.json"
+}
